@@ -29,8 +29,8 @@ pub fn defs() -> Vec<PropDef> {
                 }
                 Ok(())
             },
-            rule: "ENUM product: every sequence of up to 4 (quick) / 5 (thorough) records over the 20-entry record menu (10 good classes, 7 undecodable classes, 2 unusable-length classes, stray octets), placed in a control message as is and after a valid Message Type; expected acceptance and the expected error list are derived from the record classes, each expected error being the one try_read_greedy reports for that record decoded on its own. Non-trivial: the body holds at least one record.",
-            bounds: |t| json!({"record_menu": 20, "max_records": if t.thorough() {5} else {4}, "option_sets": ["strict", "none"]}),
+            rule: "ENUM product: every sequence of up to 4 (quick) / 5 (thorough) records over the 23-entry record menu (10 good classes, 10 undecodable classes incl. M-bit-clear and hidden-flag variants, 2 unusable-length classes, stray octets), placed in a control message as is and after a valid Message Type; expected acceptance and the expected error list are derived from the record classes, each expected error being the one try_read_greedy reports for that record decoded on its own. Non-trivial: the body holds at least one record.",
+            bounds: |t| json!({"record_menu": gen::record_menu().len(), "max_records": if t.thorough() {5} else {4}, "option_sets": ["strict", "none"]}),
             assumptions: COMMON_ASSUMPTIONS,
             fd_monitor: false,
             mem_gb: mem4,
@@ -295,6 +295,28 @@ fn run_c15(ctx: &mut Ctx) {
     });
     ctx.states += st.states;
     ctx.transitions += st.transitions;
+    // long bodies: every record class repeated / cycled 6..40 times (a cap on the error list,
+    // or a collapse of identical errors, needs more records than the product above holds)
+    if ctx.shard == 0 {
+        let n = gen::record_menu().len();
+        let menu = gen::record_menu();
+        for count in [6usize, 9, 12, 17, 33, 40] {
+            for r in 0..n {
+                if menu[r].class == RecClass::Stray || menu[r].class == RecClass::Unusable {
+                    continue;
+                }
+                let same: Vec<usize> = vec![r; count];
+                let cycled: Vec<usize> = (0..count).map(|i| (r + i) % 20).collect();
+                for idx in [same, cycled] {
+                    ctx.states += 1;
+                    ctx.transitions += 1;
+                    let i2 = idx.clone();
+                    let desc = move || seq_json(&i2, true, spec::OPT_STRICT);
+                    ctx.case(&desc, |ctx| check_seq(ctx, &idx, true, spec::OPT_STRICT));
+                }
+            }
+        }
+    }
 }
 
 fn replay_c15(ctx: &mut Ctx, v: &Value) {
